@@ -1,19 +1,14 @@
-// C13 — tlx::DAryHeap, arity 5..8 (thorough tier only; see c13_dary_heap.hpp for the driver/oracles).
+// C13 — tlx::DAryHeap, arity 3 and 4 x {std::less, std::greater, table comparator}
+// (driver and oracles: c13_dary_heap.hpp).
 #include "c13_dary_heap.hpp"
 
 namespace c13 {
-void register_dary_b(std::vector<Config>& out, bool thorough) {
-    add_dary<5, 0>(out, thorough, false, 5);
-    add_dary<5, 1>(out, thorough, false, 5);
-    add_dary<5, 2>(out, thorough, false, 20);
-    add_dary<6, 0>(out, thorough, false, 6);
-    add_dary<6, 1>(out, thorough, false, 6);
-    add_dary<6, 2>(out, thorough, false, 24);
-    add_dary<7, 0>(out, thorough, false, 7);
-    add_dary<7, 1>(out, thorough, false, 7);
-    add_dary<7, 2>(out, thorough, false, 28);
-    add_dary<8, 0>(out, thorough, false, 8);
-    add_dary<8, 1>(out, thorough, false, 8);
-    add_dary<8, 2>(out, thorough, false, 32);
+void register_dary_2(std::vector<Config>& out, bool thorough) {
+    add_dary<3, 0>(out, thorough, true);
+    add_dary<3, 1>(out, thorough, true);
+    add_dary<3, 2>(out, thorough, true);
+    add_dary<4, 0>(out, thorough, true);
+    add_dary<4, 1>(out, thorough, true);
+    add_dary<4, 2>(out, thorough, true);
 }
 }  // namespace c13
